@@ -128,6 +128,13 @@ def modelLoopAttr (len : Nat) (sized : Bool) : String :=
     | .ok (some a) => s!"{a.index0}:{a.index}:{showOptNat a.length}:{showOptNat a.revindex}:{showOptNat a.revindex0}:{showBool a.first}:{showBool a.last}:{a.depth}:{a.depth0};"
     | _ => "::::::::;")
 
+/-- the loop object read after its loop: exhausted (`idx = len`) or left at the first item (`idx = 0`) -/
+def modelLoopEsc (len : Nat) (sized brk : Bool) : String :=
+  match loopAttrsK (if brk then 0 else len) (if sized then some len else none) 0 with
+  | .panic => "panic"
+  | .ok (some a) => s!"ok:{a.index0}:{a.index}:{showOptNat a.length}:{showOptNat a.revindex}:{showOptNat a.revindex0}:{showBool a.first}:{showBool a.last}:{a.depth}:{a.depth0};"
+  | .ok none => "ok:::::::::;"
+
 def modelZpad (style : String) (d w : Nat) : String :=
   let g := if style = "x" then 4 else 3
   let l := groupedLen d g
@@ -141,6 +148,15 @@ def handle (case : String) : String :=
     match len.toNat? with
     | some len => modelLoopAttr len (sized == "1")
     | none => "bad-case"
+  | ["k", "loopesc", len, sized, brk] =>
+    match len.toNat? with
+    | some len => modelLoopEsc len (sized == "1") (brk == "1")
+    | none => "bad-case"
+  | ["k", "nestamp", _pos, _k, enc] =>
+    -- the amplified derivation contains the original one on a path: rejected whenever the original is
+    match NestDrive.handle enc with
+    | "err-chain" => "err-chain"
+    | _ => "-"
   | ["k", "zpad", style, d, w] =>
     match d.toNat?, w.toNat? with
     | some d, some w => modelZpad style d w
